@@ -40,8 +40,10 @@ Definition sort_by_id {V} (l : list (N * V)) : list (N * V) := isort (fun x y =>
 
 Definition acc_obs := ((Z * bool) * (Z * Z) * list (option (list cand * Z)))%type.
 Definition vpr_obs := (Z * list (N * list vp) * list (N * Z) * list (N * Z))%type.
+(** GetRankers (candidates) and PickVotingRewardWinner draws: (random number r, winner account index) *)
+Definition sel_obs := (list cand * list (Z * option N))%type.
 Definition obs := (err * list acc_obs * (Z * Z) * list (list (cand * Z) * Z)
-                   * (list Z * list (option Z) * list (option Z)) * vpr_obs * (Z * list (N * list vp)))%type.
+                   * (list Z * list (option Z) * list (option Z)) * vpr_obs * (Z * list (N * list vp)) * sel_obs)%type.
 
 Definition vote_obs_eqb (a b : option (list cand * Z)) : bool :=
   opt_eqb (fun x y => list_eqb cand_eqb (fst x) (fst y) && (snd x =? snd y)) a b.
@@ -62,9 +64,9 @@ Fixpoint accs_ok (d : durable) (i : N) (os : list acc_obs) : bool :=
 Definition params4 : list N := [0; 1; 2; 3]%N.
 
 (** failing components: 1 err, 2 accounts, 3 balances/total, 4 vote results, 5 params,
-    6 in-memory vpr, 7 vpr rebuilt from storage *)
+    6 in-memory vpr, 7 vpr rebuilt from storage, 8 GetRankers, 9 voting reward winner *)
 Definition obs_bad (c : cfg) (e : err) (g : gstate) (o : obs) : list N :=
-  let '(oe, oaccs, (osys, otot), ores, (opcur, opnext, opdb), (mtot, mb, mp, mch), (rtot, rb)) := o in
+  let '(oe, oaccs, (osys, otot), ores, (opcur, opnext, opdb), (mtot, mb, mp, mch), (rtot, rb), (orank, opicks)) := o in
   let d := g_d g in let m := g_m g in
   let rl := load_vpr (d_vpr d) in
   (if err_eqb e oe then [] else [1%N])
@@ -79,13 +81,17 @@ Definition obs_bad (c : cfg) (e : err) (g : gstate) (o : obs) : list N :=
          && list_eqb bucket_eqb (buckets_view (v_buckets (m_vpr m))) mb
          && list_eqb nz_eqb (sort_by_id (map (fun e => (fst e, snd (snd e))) (v_powers (m_vpr m)))) mp
          && list_eqb nz_eqb (sort_by_id (map (fun e => (fst e, snd (snd e))) (v_changes (m_vpr m)))) mch then [] else [6%N])
-  ++ (if (v_total rl =? rtot) && list_eqb bucket_eqb (buckets_view (v_buckets rl)) rb then [] else [7%N]).
+  ++ (if (v_total rl =? rtot) && list_eqb bucket_eqb (buckets_view (v_buckets rl)) rb then [] else [7%N])
+  (* GetRankers: the first GetBpCount() (in-memory parameter) entries of the stored BP ranking *)
+  ++ (if list_eqb cand_eqb (map fst (firstn (Z.to_nat (get_param c m 0%N)) (get_result d 0%N))) orank then [] else [8%N])
+  (* pickVotingRewardWinner for the observed random draws *)
+  ++ (if forallb (fun '(r, w) => opt_eqb N.eqb (pick_winner r (m_vpr m)) w) opicks then [] else [9%N]).
 
 (** after a step the model adopts the observed ranking order (only relevant with the legacy
     comparator, where tied parity twins may be stored in either order) *)
 Definition adopt_results (c : cfg) (g : gstate) (o : obs) : gstate :=
   if c_fixed c then g else
-  let '(_, _, _, ores, _, _, _) := o in
+  let '(_, _, _, ores, _, _, _, _) := o in
   let d := g_d g in
   let rs := fold_left (fun acc '(issue, (ol, _)) =>
                  if result_ok false (get_result d issue) ol
